@@ -25,6 +25,11 @@ def WF_KEPT(a, r):
     return Implies(ok(r), wf(r[1].val()))
 
 
+def SHAPE(a, r):
+    """a state and an error are never returned together (C09: all-or-nothing)"""
+    return Or(ok(r), failed(r), nothing(r))
+
+
 def W():
     return _G["world"]
 
@@ -124,11 +129,12 @@ def ids_ok(sim):
     keyed by `entity.id` be read as an update of the looked-up key)"""
     i = bound(StrT, "i_ids")
     return And(*[forall([i], Implies(getattr(sim, e).has(i), getattr(sim, e).get(i).val().id == i))
-                 for e in ("vehicles", "stations", "bases", "requests")])
+                 for e in ("vehicles", "stations", "bases", "requests")],
+               forall([i], Implies(sim.vehicles.has(i), sim.vehicles.get(i).val().vehicle_state.vehicle_id == i)))
 
 
 def wf(sim):
-    return And(inv08(sim), ids_ok(sim), wf_bases(sim))
+    return And(inv08(sim), ids_ok(sim), wf_bases(sim), sim.sim_timestep_duration_seconds > 0)
 
 
 # ---- resource updates on the station / base maps
@@ -295,6 +301,7 @@ def register(R):
         s.requires("wf", WF_PRE)
         s.ensures("releases_exactly", lambda a, r: Implies(ok(r), expect(a, r[1].val())), ("C02", "C09", "C17"))
         s.ensures("wf_kept", WF_KEPT, ("C08",))
+        s.ensures("shape", SHAPE, ("C09",))
         s.no_raise(("C02",))
         if cname in ("ReserveBase", "ChargingBase"):
             s.unfold = {"wfb"}
@@ -335,9 +342,11 @@ def register(R):
                    same_except(s2, a.sim, ["bases", "stations"]))
     exit_spec("ChargingBase", cb_exit)
 
-    exit_spec("DispatchTrip", lambda a, s2: And(
+    s = exit_spec("DispatchTrip", lambda a, s2: And(
         s2.requests == set_record(a.sim.requests, a.self.request_id, None, None),
         same_except(s2, a.sim, ["requests"])))
+    # leaving a dispatch trip is never refused: the record is always cleared when the vehicle is redirected or stopped
+    s.ensures("never_refuses", lambda a, r: Or(ok(r), failed(r)), ("C17",))
 
     # ServicingTrip: refuses to be interrupted while the route is not exhausted (C03 / C09)
     s = exit_spec("ServicingTrip", lambda a, s2: s2 == a.sim)
@@ -368,6 +377,7 @@ def register(R):
         for g, props in GROUP_PROPS.items():
             s.ensures(f"enter_{g}", mk(g), props + (tuple(extra_props) if g == "resources" else ()))
         s.ensures("wf_kept", WF_KEPT, ("C08",))
+        s.ensures("shape", SHAPE, ("C09",))
         s.no_raise(("C02",))
         if cname in ("ReserveBase", "ChargingBase"):
             s.unfold = {"wfb"}
